@@ -687,6 +687,27 @@ func (c08) Run(ctx *Ctx, ci interface{}) (o Outcome) {
 	}
 	o.Add("relation_"+c.Relation, 1)
 	a, b := run.mat, rel.mat
+	// pairs whose model distance is not an ordinary number under either presentation get the matrix-wide
+	// substitute (twice the largest ordinary distance, which may be small): "up to rounding" says nothing of them,
+	// a saturated estimator is log(0) under one presentation and log(1e-16) under the other
+	ma, mb := substituted(&run, c.Weights, n), substituted(&rel, w2, n)
+	if c.Relation == "rowperm" {
+		pm := make([][]bool, n)
+		for i := range pm {
+			pm[i] = make([]bool, n)
+		}
+		for i := 0; i < n; i++ {
+			for j := 0; j < n; j++ {
+				pm[c.RelPerm[i]][c.RelPerm[j]] = mb[i][j]
+			}
+		}
+		mb = pm
+	}
+	for i := range ma {
+		for j := range ma[i] {
+			ma[i][j] = ma[i][j] || mb[i][j]
+		}
+	}
 	if c.Relation == "rowperm" {
 		// b[i][j] is the distance between original rows perm[i], perm[j]
 		pb := make([][]float64, n)
@@ -700,10 +721,43 @@ func (c08) Run(ctx *Ctx, ci interface{}) (o Outcome) {
 		}
 		b = pb
 	}
-	if d := diffTol(a, b, scale, c.Model == "rawdist"); d != "" {
+	if d := diffTol(a, b, scale, c.Model == "rawdist", ma); d != "" {
 		o.Fail("relation:"+c.Relation, "model %s: %s presentation (k=%d) changes the matrix: %s", c.Model, c.Relation, c.RelK, d)
 	}
 	return
+}
+
+// substituted marks the pairs whose distance, asked of the model the run used, is not an ordinary number:
+// DistMatrix replaces those cells by a matrix-wide substitute.
+func substituted(dr *distRun, weights []float64, n int) [][]bool {
+	m := make([][]bool, n)
+	for i := range m {
+		m[i] = make([]bool, n)
+	}
+	if dr.model == nil {
+		return m
+	}
+	for i := 0; i < n; i++ {
+		for j := 0; j < n; j++ {
+			if i == j {
+				continue
+			}
+			si, e1 := dr.model.Sequence(i)
+			sj, e2 := dr.model.Sequence(j)
+			if e1 != nil || e2 != nil {
+				m[i][j] = true
+				continue
+			}
+			d, err := dr.model.Distance(si, sj, weights)
+			m[i][j] = err != nil || math.IsNaN(d) || math.IsInf(d, 0) || d < 0 || d > dna.NT_DIST_OVER
+		}
+	}
+	for i := 0; i < n; i++ {
+		for j := 0; j < n; j++ {
+			m[i][j] = m[i][j] || m[j][i]
+		}
+	}
+	return m
 }
 
 func head(s []string, n int) []string {
@@ -735,7 +789,7 @@ func diffBits(a, b [][]float64) string {
 // presentation is not compared: the estimators amplify rounding without bound
 // near saturation, and such a pair may be replaced by the matrix-wide
 // substitute under one presentation and not under the other.
-func diffTol(a, b [][]float64, scale float64, raw bool) string {
+func diffTol(a, b [][]float64, scale float64, raw bool, skip [][]bool) string {
 	if len(a) != len(b) {
 		return fmt.Sprintf("dimension %d vs %d", len(a), len(b))
 	}
@@ -745,7 +799,7 @@ func diffTol(a, b [][]float64, scale float64, raw bool) string {
 	for i := range a {
 		for j := range a[i] {
 			x, y := a[i][j], b[i][j]
-			if unstable(x) || unstable(y) {
+			if unstable(x) || unstable(y) || (skip != nil && skip[i][j]) {
 				continue
 			}
 			want := x * scale
